@@ -6,7 +6,7 @@ Run on every check.  Everything here reads either the live Python objects of the
 straight-line functions.  A construct outside the supported subset is a *refusal* (exit status 3, reasons in
 build/translate_status.json); a refusal is a broken tie, never by itself a violation (DESIGN.md §6.3).
 """
-import ast, json, os, subprocess, sys, textwrap, hashlib, concurrent.futures
+import ast, json, os, re, subprocess, sys, textwrap, hashlib, concurrent.futures
 
 REPO = os.environ.get("MSQ_REPO", "/repo")
 VERIF = os.path.dirname(os.path.dirname(os.path.abspath(__file__)))
@@ -497,6 +497,151 @@ def upper_exceptions():
     return out
 
 
+
+STATIC_SCRIPT = r"""
+import sys, json, dataclasses, inspect, enum
+sys.path.insert(0, %(repo)r)
+import metasequoia_sql
+from metasequoia_sql.core import static as ST, node as N
+from metasequoia_sql.core.sql_type import SQLType
+from metasequoia_sql.common import name_set as NS, static as CS
+def members(E):
+    # iteration order = definition order without aliases; also report aliases
+    return [[m.name, m.value] for m in E]
+def aliases(E):
+    return {k: v.name for k, v in E.__members__.items() if k != v.name}
+out = {
+  "SQLType": members(SQLType),
+  "computeHash": [[k, v.name] for k, v in ST.COMPUTE_OPERATOR_HASH.items()],
+  "computeEnum": [[m.name, m.value, m.level] for m in ST.EnumComputeOperator],
+  "computeSet": sorted(ST.COMPUTE_OPERATOR_SET),
+  "compareHash": [[k, v.name] for k, v in ST.COMPARE_OPERATOR_HASH.items()],
+  "compareEnum": members(ST.EnumCompareOperator),
+  "compareAliases": aliases(ST.EnumCompareOperator),
+  "compareSet": sorted(ST.COMPARE_OPERATOR_SET),
+  "unarySet": {t.name: sorted(ST.get_unary_operator_set(t)) for t in SQLType},
+  "notSet": {t.name: sorted(ST.get_not_operator_set(t)) for t in SQLType},
+  "joinTypes": members(ST.EnumJoinType), "unionTypes": members(ST.EnumUnionType), "insertTypes": members(ST.EnumInsertType),
+  "orderTypes": members(ST.EnumOrderType), "castTypes": members(ST.EnumCastDataType), "windowRowTypes": members(ST.EnumWindowRowType),
+  "logicalEnum": members(ST.EnumLogicalOperator),
+  "genColSaveModes": [[k, v.name] for k, v in ST.GENERATE_COLUMN_SAVE_MODE_HASH.items()],
+  "genColEnum": members(ST.EnumGenerateColumnSaveMode),
+  "aggNames": sorted(NS.AGGREGATION_FUNCTION_NAME_SET), "windowFnNames": sorted(NS.WINDOW_FUNCTION_NAME_SET),
+  "globalVarNames": sorted(NS.GLOBAL_VARIABLE_NAME_SET),
+  "mysqlDataTypes": [[k, v[0], v[1]] for k, v in CS.MYSQL_DATA_TYPE.items()],
+  "mysqlToHive": [[k, v] for k, v in CS.HASHMAP_MYSQL_TO_HIVE.items()],
+}
+# AST schema by reflection
+schema = []
+mods = [N]
+try:
+    from metasequoia_sql.plugins import mybaitis as MB
+    mods.append(MB)
+except Exception as e:
+    out["mybatis_import_error"] = repr(e)
+seen = set()
+for M in mods:
+    for name, c in vars(M).items():
+        if inspect.isclass(c) and dataclasses.is_dataclass(c) and c.__module__ == M.__name__ and c not in seen:
+            seen.add(c)
+            p = c.__dataclass_params__
+            fields = []
+            for f in dataclasses.fields(c):
+                has_default = not (f.default is dataclasses.MISSING and f.default_factory is dataclasses.MISSING)
+                fields.append({"name": f.name, "init": f.init, "kw_only": f.kw_only, "has_default": has_default,
+                               "default": (repr(f.default) if has_default and f.default_factory is dataclasses.MISSING and not dataclasses.is_dataclass(f.default) else
+                                           ("<node>" if has_default and dataclasses.is_dataclass(f.default) else None)),
+                               "type": str(f.type)})
+            class_nodes = [k for k, v in vars(c).items() if dataclasses.is_dataclass(v) and not isinstance(v, type)]
+            schema.append({"name": name, "module": M.__name__, "bases": [b.__name__ for b in c.__mro__[1:] if b not in (object,) and b.__name__ != "ABC"],
+                           "abstract": inspect.isabstract(c), "frozen": p.frozen, "eq": p.eq, "slots": "__slots__" in vars(c),
+                           "unsafe_hash": p.unsafe_hash, "order": p.order,
+                           "own_setattr": "__setattr__" in vars(c) and not p.frozen, "own_hash": False, "own_eq": False,
+                           "fields": fields, "class_level_nodes": class_nodes})
+out["schema"] = schema
+print(json.dumps(out))
+"""
+
+
+def dump_static():
+    r = subprocess.run([PY, "-c", STATIC_SCRIPT % {"repo": REPO}], capture_output=True, text=True, cwd="/", env=dict(os.environ, PYTHONHASHSEED="0"))
+    if r.returncode != 0:
+        raise Refuse("static dump failed: %s" % (r.stderr.strip().splitlines()[-1:] or r.stderr))
+    return json.loads(r.stdout)
+
+
+def lean_strs(xs):
+    return "[" + ", ".join(lean_str(x) for x in xs) + "]"
+
+
+def ident(s):
+    if not re.fullmatch(r"[A-Za-z_][A-Za-z0-9_]*", s):
+        raise Refuse("enum member name is not an identifier: %r" % s)
+    return s
+
+
+def emit_static(st):
+    L = [HEADER, "namespace Gen", "", "/-- `SQLType` -/",
+         "inductive D | " + " | ".join(ident(n) for n, _ in st["SQLType"]), "  deriving DecidableEq, Repr, Inhabited", "",
+         "def allD : List D := [" + ", ".join("." + n for n, _ in st["SQLType"]) + "]",
+         "def D.name : D → String"] + ['  | .%s => "%s"' % (n, n) for n, _ in st["SQLType"]]
+    L += ["def D.value : D → String"] + ['  | .%s => %s' % (n, lean_str(v)) for n, v in st["SQLType"]]
+    L += ["def D.ofName? (s : String) : Option D := allD.find? (fun d => d.name == s)", ""]
+    L += ["/-- `COMPUTE_OPERATOR_HASH`: source ↦ enum member name, in dict order -/",
+          "def computeHash : List (String × String) := [" + ", ".join("(%s, %s)" % (lean_str(k), lean_str(v)) for k, v in st["computeHash"]) + "]",
+          "/-- `EnumComputeOperator`: member name, value, level -/",
+          "def computeEnum : List (String × String × Nat) := [" + ", ".join("(%s, %s, %d)" % (lean_str(a), lean_str(b), c) for a, b, c in st["computeEnum"]) + "]",
+          "/-- `COMPARE_OPERATOR_HASH`: source ↦ canonical member name -/",
+          "def compareHash : List (String × String) := [" + ", ".join("(%s, %s)" % (lean_str(k), lean_str(v)) for k, v in st["compareHash"]) + "]",
+          "/-- `EnumCompareOperator` (aliases removed, as Python does): member name, value -/",
+          "def compareEnum : List (String × List String) := [" + ", ".join("(%s, %s)" % (lean_str(a), lean_strs(b)) for a, b in st["compareEnum"]) + "]",
+          "def compareSet : List String := " + lean_strs(st["compareSet"]),
+          "def computeSet : List String := " + lean_strs(st["computeSet"]), ""]
+    for key, nm in (("unarySet", "unarySet"), ("notSet", "notSet")):
+        L += ["/-- `static.get_%s` evaluated for every dialect -/" % ("unary_operator_set" if key == "unarySet" else "not_operator_set"),
+              "def %s : D → List String" % nm] + ["  | .%s => %s" % (n, lean_strs(st[key][n])) for n, _ in st["SQLType"]]
+    for key in ("joinTypes", "unionTypes", "insertTypes", "orderTypes"):
+        for n, v in st[key]:
+            if not (isinstance(v, list) and all(isinstance(x, str) for x in v)):
+                raise Refuse("%s member %s has a non-word-list value" % (key, n))
+        L += ["/-- enum members in iteration order: name, keyword sequence -/",
+              "def %s : List (String × List String) := [" % key + ", ".join("(%s, %s)" % (lean_str(n), lean_strs(v)) for n, v in st[key]) + "]"]
+    for key in ("castTypes", "windowRowTypes", "genColEnum"):
+        for n, v in st[key]:
+            if not isinstance(v, str):
+                raise Refuse("%s member %s has a non-string value" % (key, n))
+        L += ["def %s : List (String × String) := [" % key + ", ".join("(%s, %s)" % (lean_str(n), lean_str(v)) for n, v in st[key]) + "]"]
+    L += ["/-- `GENERATE_COLUMN_SAVE_MODE_HASH`: source ↦ member name -/",
+          "def genColSaveModes : List (String × String) := [" + ", ".join("(%s, %s)" % (lean_str(k), lean_str(v)) for k, v in st["genColSaveModes"]) + "]",
+          "def aggNames : List String := " + lean_strs(st["aggNames"]),
+          "def windowFnNames : List String := " + lean_strs(st["windowFnNames"]),
+          "def globalVarNames : List String := " + lean_strs(st["globalVarNames"]),
+          "/-- `MYSQL_DATA_TYPE`: name, min params, max params -/",
+          "def mysqlDataTypes : List (String × Nat × Nat) := [" + ", ".join("(%s, %d, %d)" % (lean_str(a), b, c) for a, b, c in st["mysqlDataTypes"]) + "]",
+          "/-- `HASHMAP_MYSQL_TO_HIVE` -/",
+          "def mysqlToHive : List (String × String) := [" + ", ".join("(%s, %s)" % (lean_str(a), lean_str(b)) for a, b in st["mysqlToHive"]) + "]",
+          "", "end Gen", ""]
+    return "\n".join(L)
+
+
+def emit_schema(st):
+    L = [HEADER, "namespace Gen", "",
+         "structure FieldInfo where", "  name : String", "  hasDefault : Bool", "  deriving Repr, DecidableEq", "",
+         "structure ClassInfo where", "  name : String", "  bases : List String", "  abstract : Bool", "  frozen : Bool", "  eq : Bool", "  slots : Bool",
+         "  ownSetattr : Bool", "  fields : List FieldInfo", "  classLevelNodes : List String", "  deriving Repr, DecidableEq", "",
+         "/-- every dataclass of core/node.py and plugins/mybaitis.py, by reflection -/", "def schema : List ClassInfo := ["]
+    rows = []
+    for c in st["schema"]:
+        rows.append("  ⟨%s, %s, %s, %s, %s, %s, %s, [%s], %s⟩" % (
+            lean_str(c["name"]), lean_strs(c["bases"]), str(c["abstract"]).lower(), str(c["frozen"]).lower(), str(c["eq"]).lower(),
+            str(c["slots"]).lower(), str(c["own_setattr"]).lower(),
+            ", ".join("⟨%s, %s⟩" % (lean_str(f["name"]), str(f["has_default"]).lower()) for f in c["fields"]), lean_strs(c["class_level_nodes"])))
+    L.append(",\n".join(rows) + "]")
+    L += ["", "def fieldsOf (cls : String) : Option (List String) := (schema.find? (fun c => c.name == cls)).map fun c => c.fields.map (·.name)",
+          "", "end Gen", ""]
+    return "\n".join(L)
+
+
 # ----------------------------------------------------------------------------------------------------------
 # Lean emission
 # ----------------------------------------------------------------------------------------------------------
@@ -631,6 +776,7 @@ def main():
         for r in mb_rules:
             check_opref(r["op"], ops, statuses)
         upper = upper_exceptions()
+        st = dump_static()
 
         # ---- emit -------------------------------------------------------------------------------------
         files = {}
@@ -668,6 +814,8 @@ def main():
               "/-- Python's `str.upper()` -/", "def pyUpper : List Char → List Char := Py.upperWith upperExc", "",
               "def pyUpperS (s : String) : String := String.ofList (pyUpper s.toList)", "", "end Gen", ""]
         files["PyTables.lean"] = "\n".join(U)
+        files["Static.lean"] = emit_static(st)
+        files["Schema.lean"] = emit_schema(st)
         for i, t in enumerate(tabs):
             files["LexCfg%d.lean" % i] = emit_cfg("Cfg%d" % i, t, ops, params, statuses)
         M = [HEADER, "import MsqModel.Gen.LexCfg%d" % shipped_idx, "namespace Gen", "open Lex", "",
@@ -687,7 +835,7 @@ def main():
         gen = {"statuses": base["status"], "ops": ops, "params": params, "mybatis": mb_rules, "shippedIdx": shipped_idx,
                "AMTMark": base["AMTMark"], "wordMarks": base["wordMarks"], "END": base["END_map"],
                "tables": [{k: t[k] for k in ("rows", "atEndExplicit", "dflt")} for t in tabs],
-               "upper_exceptions": len(upper)}
+               "upper_exceptions": len(upper), "static": st}
         write_if_changed(os.path.join(BUILD, "gen.json"), json.dumps(gen, sort_keys=True))
     except Refuse as e:
         status["refused"].append(str(e))
